@@ -152,7 +152,10 @@ Step ==
        [] e.e = "wait_end" ->
             LET S == Range(e.s) \cap 1..c.n
                 bad == Clauses({
-                  <<\E m \in S : ph[m] \notin {"ok", "fail"}, "WF.wait_end">>,
+                  \* a wait reports a node as finished whose function has not returned: the scheduler will treat its
+                  \* dependents as ready and its result as available (C02)
+                  <<\E m \in S : ph[m] \in {"disp", "run"}, "C02.premature-completion">>,
+                  <<\E m \in S : ph[m] \in {"idle", "skip"}, "WF.wait_end">>,
                   <<~blk, "WF.wait_end-unblocked">>})
             IN /\ blk' = FALSE /\ awaited' = {}
                /\ deliv' = deliv \cup {m \in S : ph[m] = "ok"}
